@@ -319,8 +319,10 @@ Definition call (cfg : config) (lookup : N -> option session) (now : N) (d : dea
                           negb (sess_feature callee "callee" f_call_timeout && reg_fwd_timeout r) in
                         let '(d1, inv2) :=
                           if local_timer then
-                            let t := d_timergen d + 1 in
-                            (d_set_timers d (nset (d_timers d) t (now + Z.to_N tmo, cid)) t, inv_set_timer inv1 (Some t))
+                            (* the timeout restarts: the previous chunk's timer is stopped *)
+                            let dc := cancel_timer d (inv_timer inv1) in
+                            let t := d_timergen dc + 1 in
+                            (d_set_timers dc (nset (d_timers dc) t (now + Z.to_N tmo, cid)) t, inv_set_timer inv1 (Some t))
                           else (d, inv1) in
                         let d2 := d_set_invs d1 (cset (d_invs d1) ikey inv2) in
                         CallInvoked d2 callee
